@@ -11,8 +11,8 @@
    reproduces everything that was observed (this is what the correspondence check evaluates on
    every run), [monitor c] transcribes the English property over the label alone.
 
-   Partial (as claimed in DESIGN.md): latency is virtual time; node calls are assumed to honour
-   cancellation of their context. *)
+   Partial (as claimed in DESIGN.md): latency is virtual time.  Node calls may ignore cancellation of
+   their context ([deaf]); a [Hang] node is one that returns only when cancelled. *)
 From Coq Require Import List NArith Bool Arith.
 From Charon Require Import Flow.Multi Flow.MultiFacts.
 Import ListNotations.
@@ -160,17 +160,29 @@ Theorem C19_zero_primaries : forall prim_ord fb ford tc,
 Proof. exact zero_primaries. Qed.
 Print Assumptions C19_zero_primaries.
 
-(* Cancelling the caller's context returns promptly (node calls honour their context): the call is
-   never left blocked, it returns not later than the instant of cancellation, with ctx.Err() or
-   with what it would have returned anyway. *)
+(* Cancelling the caller's context: the call is never left blocked; it returns ctx.Err() or what it
+   would have returned anyway; and it returns not later than the instant of cancellation as soon as
+   one node that is awaited at that instant honours its context (all nodes do / a primary that has
+   not completed by then does / the fallbacks run and one of them that cannot have completed does).
+   No assumption on the other nodes: they may ignore cancellation and return arbitrarily late. *)
 Theorem C19_cancel_returns : forall prim fb pord ford c,
   order_ok prim pord = true -> order_ok fb ford = true ->
   provide prim fb pord ford (Some c) <> RBlocked /\
-  (exists t, finish_time prim fb pord ford (Some c) = Some t /\ t <= c) /\
+  (exists t, finish_time prim fb pord ford (Some c) = Some t /\
+     ((forallb hears (prim ++ fb) = true \/ pending_hearerP c prim \/
+       (consulted prim fb pord (Some c) = true /\ pending_hearerP c fb)) -> t <= c)) /\
   (provide prim fb pord ford (Some c) = RCtx \/
    provide prim fb pord ford (Some c) = provide prim fb pord ford None).
 Proof. exact cancel_returns. Qed.
 Print Assumptions C19_cancel_returns.
+
+(* What the code does when only context-ignoring calls are awaited: the cancellation is noticed when
+   the next of them returns (no implementation-independent reading of "promptly" applies: stated). *)
+Theorem C19_cancel_waits_when_only_deaf_awaited :
+  provide [mkn (Err Timeout) 3600000 true] [] [0%nat] [] (Some 1000) = RCtx /\
+  finish_time [mkn (Err Timeout) 3600000 true] [] [0%nat] [] (Some 1000) = Some 3600000.
+Proof. exact cancel_waits_when_only_deaf_awaited. Qed.
+Print Assumptions C19_cancel_waits_when_only_deaf_awaited.
 
 (* submit-style calls are provide over work that returns no value. *)
 Theorem C19_submit_succeeds_iff : forall prim fb pord ford,
@@ -202,13 +214,28 @@ Theorem C19_nonvacuous :
 Proof. exact (conj ex_case_accepted ex_fallback_accepted). Qed.
 Print Assumptions C19_nonvacuous.
 
+(* Nodes that ignore their context (hung dial / DNS / TLS): abandoned, they delay neither a healthy
+   node's answer (C19_latency_is_fastest_success has no hypothesis on the other nodes) nor the
+   caller's cancellation; labels of such runs are accepted, the ones a worker-joining client shows
+   are rejected. *)
+Theorem C19_context_ignoring_nodes :
+  ((accepts ex_deaf_success = true /\ monitor ex_deaf_success = true) /\
+   (accepts ex_deaf_cancel = true /\ monitor ex_deaf_cancel = true) /\
+   (accepts ex_deaf_fallback = true /\ monitor ex_deaf_fallback = true)) /\
+  (monitor (mkc Plain [mkn (Err Timeout) 3600000 true; mkn (Success 101) 10 false] [] [1; 0]%nat [] None
+               (ROk (P 1) 101) (Some 3600000) [Done 3600000; Done 10] []) = false /\
+   monitor (mkc Submit [mkn (Err Timeout) 3600000 true; mkn Hang 0 false] [] [0%nat] [] (Some 1000)
+               RCtx (Some 3600000) [Done 3600000; Cancelled 1000] []) = false).
+Proof. exact (conj ex_deaf_accepted monitor_rejects_waiting_for_deaf). Qed.
+Print Assumptions C19_context_ignoring_nodes.
+
 Theorem C19_monitor_rejects :
-  monitor (mkc Plain [mkn (Success 101) 5; mkn (Success 102) 900] [] [0; 1]%nat [] None
+  monitor (mkc Plain [mkn (Success 101) 5 false; mkn (Success 102) 900 false] [] [0; 1]%nat [] None
                (ROk (P 0) 101) (Some 900) [Done 5; Done 900] []) = false /\
-  monitor (mkc Plain [mkn (Err Timeout) 5] [mkn (Success 200) 1] [0%nat] [0%nat] None
+  monitor (mkc Plain [mkn (Err Timeout) 5 false] [mkn (Success 200) 1 false] [0%nat] [0%nat] None
                (RErr (P 0) Timeout) (Some 5) [Done 5] [NotCalled]) = false /\
-  monitor (mkc Plain [mkn (Err Other) 5] [mkn (Success 200) 1] [0%nat] [0%nat] None
+  monitor (mkc Plain [mkn (Err Other) 5 false] [mkn (Success 200) 1 false] [0%nat] [0%nat] None
                (ROk (F 0) 200) (Some 6) [Done 5] [Done 6]) = false /\
-  monitor (mkc Plain [mkn Hang 0] [] [] [] (Some 10) RCtx (Some 11) [Cancelled 10] []) = false.
+  monitor (mkc Plain [mkn Hang 0 false] [] [] [] (Some 10) RCtx (Some 11) [Cancelled 10] []) = false.
 Proof. exact monitor_rejects. Qed.
 Print Assumptions C19_monitor_rejects.
